@@ -1,0 +1,14 @@
+//go:build verif
+
+package bitcoin
+
+// Verification hook (build tag verif): re-exports existing identifiers only.
+
+func VerifC29ReadCompactSizeUint(varLenData []byte) (uint64, int, error) {
+	csu, n, err := readCompactSizeUint(varLenData)
+	return uint64(csu), n, err
+}
+
+func VerifC29WriteCompactSizeUint(v uint64) ([]byte, error) {
+	return writeCompactSizeUint(CompactSizeUint(v))
+}
